@@ -4,7 +4,8 @@
    the real creation script of `old`, which the case carries as well). *)
 From Coq Require Import List NArith PArith Bool.
 Import ListNotations.
-Require Import Verif.Db.Depth Verif.Db.Script Verif.Db.SqlInterp Verif.Db.Text Verif.Gen.DbTables Verif.Base.Harness.
+Require Import Verif.Db.Depth Verif.Db.DepthProps Verif.Db.Script Verif.Db.SqlInterp Verif.Db.CatalogProps Verif.Db.ColsSpec Verif.Db.Text Verif.Db.Files Verif.Gen.DbTables
+  Verif.Base.Harness.
 
 Definition pair_eqb (a b:name*name) : bool := key_eqb a b.
 Definition coldef_eqb (a b:name*sqlty) : bool := Pos.eqb (fst a) (fst b) && sqlty_eqb (snd a) (snd b).
@@ -55,9 +56,17 @@ Record c16_case := Case {
   k_create : list ddl;               (* real creation script of k_old *)
   k_script : option (list ddl);      (* real delta script, when k_new is given *)
   k_cat  : option catalog;           (* Go interpreter: empty catalog, k_create, then k_script; None = rejected *)
-  k_texts : list (list tok)          (* per statement of k_create ++ k_script: the emitted text, lexed (CREATE TABLE body,
+  k_texts : list (list tok);         (* per statement of k_create ++ k_script: the emitted text, lexed (CREATE TABLE body,
                                         ADD COLUMN definition, ADD <constraint>; [] for the other statements) *)
+  k_sound : bool                     (* the Go oracle's verdict on this pair: creation script of k_old accepted, delta script
+                                        accepted after it, every table of k_new exactly as k_new declares it (true when there
+                                        is no k_new) *)
 }.
+
+(* the scope of C16_delta_sound_columns_partial, computed: SQL types through the reference chains of both versions *)
+Definition pair_in_scope (o n:model) : bool :=
+  let f := S (length o + length n) in
+  edits_in_scope (mty o f) (mty n f) o n && no_ref_dropped o n.
 
 Definition c16_ok (c:c16_case) : bool :=
   (* 1. the model produces the statements the real code produced *)
@@ -79,7 +88,13 @@ Definition c16_ok (c:c16_case) : bool :=
   (* 3. the emitted text is, piece by piece, what the text model assembles for these statements (and no panic) *)
   list_eqb (option_eqb (list_eqb tok_eqb))
     (map (stmt_text create_trim addcol_post) (k_create c ++ match k_script c with Some s => s | None => [] end))
-    (map Some (k_texts c)).
+    (map Some (k_texts c)) &&
+  (* 4. the scope of the proved delta soundness against the model-independent oracle: on a pair that the theorem covers
+        (none of the four known-finding kinds) the oracle must have found nothing *)
+  match k_new c with
+  | Some n => if pair_in_scope (k_old c) n then k_sound c else true
+  | None => true
+  end.
 
 (* ---- several applications in one run of ProcessModSysls ---- *)
 Record c16_apps_case := ACase {
@@ -95,3 +110,15 @@ Definition c16_apps_ok (c:c16_apps_case) : bool :=
   | Ok l => list_eqb (list_eqb ddl_eqb) (map script_stmts l) (a_out c)
   | OutOfFuel => false
   end.
+
+(* ---- script files written into one output directory, run after run ---- *)
+Record c16_files_case := FCase {
+  f_init  : option content;          (* what <output-dir>/<app>.sql held before the first run (None: no such file) *)
+  f_steps : list (N * N);            (* per run: (id of the script the run produces, its length in bytes) *)
+  f_seen  : list (option content)    (* the file as read back from the directory after each run, in pieces: the whole script
+                                        of the run is [(id, 0, length)]; bytes the harness cannot attribute carry id 0 *)
+}.
+Definition seg_eqb (a b:seg) : bool :=
+  let '(k, x, y) := a in let '(k', x', y') := b in N.eqb k k' && N.eqb x x' && N.eqb y y'.
+Definition c16_files_ok (c:c16_files_case) : bool :=
+  list_eqb (option_eqb (list_eqb seg_eqb)) (run_writes write_mode (f_init c) (f_steps c)) (f_seen c).
